@@ -193,7 +193,7 @@ theorem indexExprL_field (env : PEnv) (lower : Option Level) {name rest : Input}
   rw [lexIdentifier_name env.scheme hn hrest]
   simp only [hget, lexIndexes_none (idStop_no_bracket hrest)]
 
-/-! ### a valid name is not taken for `not`, `any(`, `all(` -/
+/-! ### a registered valid name is not taken for `not`, `any(`, `all(` -/
 
 /-- a word that is a prefix of `name ++ more`, where `more` does not go on with an identifier
 character, is a prefix of `name` -/
@@ -226,9 +226,9 @@ theorem idStop_head {rest : Input} (h : IdStop rest = true) :
     subst hc
     exact h.1.1
 
-/-- **no unary operator**: a name that does not start with `not`, before an `IdStop`
-continuation (`!` is no identifier character) -/
-theorem name_noUnary {name more : Input} (hn : nameOk name = true)
+/-- a name that does not start with `not`, before an `IdStop` continuation, is no spelling of
+the unary operator at all (`!` is no identifier character) -/
+theorem name_noUnaryEnum {name more : Input} (hn : nameOk name = true)
     (hnot : "not".toList.isPrefixOf name = false) (hmore : IdStop more = true) :
     lexEnum unaryOps (name ++ more) = none := by
   rw [lexEnum_eq_none]
@@ -247,6 +247,53 @@ theorem name_noUnary {name more : Input} (hn : nameOk name = true)
       exact ((List.cons_prefix_cons (a := '!') (b := c)).mp this).1.symm
     subst this
     revert hc; decide
+
+/-- **`lex_unary_op` declines every registered name other than `not` itself**, also one that
+begins with the word `not` (`notes`, `not_b`, `not.x`): such a name goes on after the `t` with an
+identifier character or a dot (`glued`) and `Identifier::lex_with` finds it in the scheme. The
+name exactly `not` is excluded: nothing is glued to it, so it IS the operator. -/
+theorem name_noUnary (env : PEnv) {name more : Input} (hn : nameOk name = true)
+    (hreg : (env.scheme.get name).isSome = true) (hne : name ≠ "not".toList)
+    (hmore : IdStop more = true) :
+    lexUnary env (name ++ more) = none := by
+  rw [lexUnary_eq_none_iff]
+  cases he : lexEnum unaryOps (name ++ more) with
+  | none => exact .inl rfl
+  | some p =>
+    obtain ⟨u, r⟩ := p
+    right
+    rcases lexEnum_unary_cases he with hin | hin
+    · -- `not` is a prefix of the name
+      have hpre : "not".toList <+: name :=
+        prefix_of_name (by decide) (idStop_head hmore) ⟨r, hin.symm⟩
+      obtain ⟨tl, htl⟩ := hpre
+      have hr : r = tl ++ more := by
+        have : "not".toList ++ r = "not".toList ++ (tl ++ more) := by
+          rw [← List.append_assoc, htl]; exact hin.symm
+        exact List.append_cancel_left this
+      refine ⟨r, hin, ?_, ?_⟩
+      · cases tl with
+        | nil => exact absurd (by rw [← htl]; rfl) hne
+        | cons d ds =>
+          have h1 : nameOkAux false ("not".toList ++ d :: ds) = true := by rw [htl]; exact hn
+          have h2 : nameOkAux true (d :: ds) = true := by
+            simpa [nameOkAux, show isIdentChar 'n' = true by decide,
+              show isIdentChar 'o' = true by decide, show isIdentChar 't' = true by decide]
+              using h1
+          rw [hr, List.cons_append, gluedTo_cons]
+          rcases nameOkAux_head h2 with h | rfl
+          · simp [h]
+          · decide
+      · unfold isRegistered
+        rw [lexIdentifier_name env.scheme hn hmore]
+        cases hg : env.scheme.get name with
+        | none => rw [hg] at hreg; cases hreg
+        | some id => rfl
+    · -- `!` is no identifier character
+      obtain ⟨c, cs, rfl, hc, _⟩ := nameOk_head hn
+      simp only [List.cons_append, List.cons.injEq] at hin
+      obtain ⟨rfl, _⟩ := hin
+      exact absurd hc (by decide)
 
 theorem quantOps_spellings {e : String × QOp} (he : e ∈ quantOps) :
     e.1 = "any" ∨ e.1 = "all" := by
